@@ -19,23 +19,36 @@ spec/Tendermint.tla; driver harness/cmd/vd-tm (cosmos-edges).
 import json
 
 KNOWN_ABS = "cosmos:deposit-accepted-on-absence-proof"
+KNOWN_DUPVOTE = "heimdall:duplicate-vote-counted"
 
 
 def _classify(e):
     c = e["call"]
     src = e["src"]
     h = c["hdrs"][0]
+    fl = e["flavour"]
     if c["op"] == "deposit":
-        if all(e["signed"]) and c["kind"] == "absent-nokp":
+        if all(e["signed"]) and c["kind"] == "absent-nokp" and fl == "cosmos":
             return KNOWN_ABS
-        return "cosmos:deposit-accepted:%s:header-%s" % (c["kind"], "signed" if all(e["signed"]) else "unsigned")
+        return "%s:deposit-accepted:%s:header-%s" % (fl, c["kind"], "signed" if all(e["signed"]) else "unsigned")
     if all(x["h"] <= src["h"] for x in c["hdrs"]):
-        return "cosmos:sync-advance-unjustified:height"
+        return "%s:sync-advance-unjustified:height" % fl
     if h["vs"] != src["nv"] or h["vh"] != src["nv"]:
-        return "cosmos:sync-advance-unjustified:valset"
+        return "%s:sync-advance-unjustified:valset" % fl
     if h["cm"] != "this":
-        return "cosmos:sync-advance-unjustified:commit"
-    return "cosmos:sync-advance-unjustified:quorum"
+        return "%s:sync-advance-unjustified:commit" % fl
+    if len(c["hdrs"]) == 1 and "r" in h["votes"] and "f" not in h["votes"] and len(h["votes"]) == len(e["powers"][h["vs"] - 1]):
+        # the only thing wrong with the header: slots that repeat one validator's vote were counted as further signers
+        return KNOWN_DUPVOTE if fl == "heimdall" else "%s:duplicate-vote-counted" % fl
+    return "%s:sync-advance-unjustified:quorum" % fl
+
+
+def _driver(ctx, binary, args, input_obj):
+    """ctx.driver, but an unreadable driver output is 'no verdict' (exit 2), never an exit-1 traceback."""
+    try:
+        return ctx.driver(binary, args, input_obj=input_obj)
+    except (ValueError, UnicodeError) as e:
+        ctx.fail("driver output unreadable: %r" % (e,))
 
 
 def run(ctx):
@@ -56,21 +69,33 @@ def run(ctx):
             for e in got:
                 e["init"] = e["src"] if mode == "table" else {"h": 1, "nv": 1}
                 e["mode"] = mode
-            edges += got
+                for fl in FLAVOURS:
+                    # okex / heimdall: light client only (their deposit paths need IAVL / bor proofs); table mode in the thorough tier
+                    if fl != "cosmos" and (e["call"]["op"] != "sync" or (q and mode == "table")):
+                        continue
+                    e2 = dict(e)
+                    e2["flavour"] = fl
+                    edges.append(e2)
         r = ctx.tlc("Tendermint", "Tendermint_f9_design.cfg", timeout=600)
         if r.invariant_violated != "PropC30":
             ctx.fail("model sanity: the model with the empty-key-path branch was expected to violate PropC30")
         ctx.note("design level: deposit model with the empty-key-path (absence) branch violates PropC30 (expected, finding F9)")
+        r = ctx.tlc("Tendermint", "Tendermint_dupvote_design.cfg", timeout=600)
+        if r.invariant_violated != "PropC30":
+            ctx.fail("model sanity: the model whose tally takes the validator index from the vote was expected to violate PropC30")
+        ctx.note("design level: tally that trusts the vote's own validator index violates PropC30 (expected, heimdall finding)")
         for i, e in enumerate(edges):
             e["idx"] = i
-    out = ctx.driver(b, ["cosmos-edges"], input_obj=edges)
+    out = _driver(ctx, b, ["cosmos-edges"], input_obj=edges)
     summ = [o for o in out if o.get("summary")][0]
     obs = [o for o in out if not o.get("summary")]
     if len(obs) != len(edges):
         ctx.fail("driver answered %d of %d edges" % (len(obs), len(edges)))
-    st = {"edges": len(obs), "accepted": 0, "advanced": 0, "deposits_accepted": 0, "diverged": 0, "drift": 0, "panics": 0}
+    stats = {}
     for o in obs:
         e = edges[o["i"]]
+        st = stats.setdefault(e["flavour"], {"edges": 0, "accepted": 0, "advanced": 0, "deposits_accepted": 0, "diverged": 0, "drift": 0, "panics": 0})
+        st["edges"] += 1
         if o.get("setup"):
             ctx.fail("harness could not build the scenario of edge %d: %s" % (o["i"], o["setup"]))
         if o.get("diverged"):
@@ -97,28 +122,33 @@ def run(ctx):
         elif o["ok"] != e["ok"] or post != (e["post"]["h"], e["post"]["nv"]):
             st["drift"] += 1
     if not ctx.replay and not ctx.violations:
-        if st["diverged"] * 20 > len(obs):
-            ctx.fail("too many edges whose history did not reach the source state on the real code: %d of %d" % (st["diverged"], len(obs)))
-        if st["advanced"] == 0 or st["deposits_accepted"] == 0:
-            ctx.fail("vacuous: the real code accepted no advance / no deposit at all")
-    if st["drift"] or st["diverged"] or st["panics"]:
-        ctx.note("drift=%d diverged=%d panics=%d" % (st["drift"], st["diverged"], st["panics"]))
+        for fl, st in stats.items():
+            if st["diverged"] * 20 > st["edges"]:
+                ctx.fail("%s: too many edges whose history did not reach the source state on the real code: %d of %d" % (fl, st["diverged"], st["edges"]))
+            if st["advanced"] == 0 or (fl == "cosmos" and st["deposits_accepted"] == 0):
+                ctx.fail("vacuous: the real %s code accepted no advance / no deposit at all" % fl)
+    if any(st["drift"] or st["diverged"] or st["panics"] for st in stats.values()):
+        ctx.note("drift/diverged/panics per flavour: %s" % {k: (v["drift"], v["diverged"], v["panics"]) for k, v in stats.items()})
     for o in obs[:: max(1, len(obs) // 4)]:
         e = edges[o["i"]]
-        ctx.sample({"src": e["src"], "call": e["call"], "predicted": {"ok": e["ok"], "post": e["post"]},
+        ctx.sample({"flavour": e["flavour"], "src": e["src"], "call": e["call"], "predicted": {"ok": e["ok"], "post": e["post"]},
                     "observed": {k: o.get(k) for k in ("ok", "post", "concr")}})
     ctx.cov["evaluations"] = len(obs)
     ctx.cov["distinct_nontrivial"] = summ["distinct"]
-    ctx.cov["stats"] = st
-    return ctx.finish(rule="P-EDGE / P-TABLE: every (tracked state, call) edge printed by TLC is executed on a fresh synthetic "
+    ctx.cov["per_flavour"] = stats
+    return ctx.finish(rule="flavours: %s. " % ", ".join(FLAVOURS) + "P-EDGE / P-TABLE: every (tracked state, call) edge printed by TLC is executed on a fresh synthetic "
                       "Tendermint chain through the real SyncGenesisHeader / SyncBlockHeader / ImportExTransfer entry points "
                       "after replaying the history that reaches the source state; the observed tracked (height, next validator "
                       "set) must lie in the monitor's allowed set and an accepted deposit needs a justified header plus an "
                       "existence proof. distinct_nontrivial = distinct (source state, call, validator powers) edges executed.",
                       assumptions=["Hash(validator set) is abstracted to the set's identity (collision resistance)",
-                                   "router covered: cosmos (header_sync/cosmos + cross_chain_manager/cosmos); okex and polygon "
-                                   "heimdall are not driven by this check",
-                                   "validator keys ed25519 and secp256k1; block versions 10 (amino) and 11 (protobuf), one "
-                                   "version per scenario; sr25519 and mixed-version upgrades not exercised",
+                                   "cosmos: light client + deposit handler; okex and polygon heimdall: light client (SyncGenesisHeader / "
+                                   "SyncBlockHeader) only - the okex deposit handler (IAVL + EVM storage proofs) and heimdall's span "
+                                   "proofs are not driven",
+                                   "validator keys ed25519 and secp256k1 (heimdall: its own secp256k1); cosmos block versions 10 (amino) "
+                                   "and 11 (protobuf), one version per scenario; sr25519 and mixed-version upgrades not exercised",
                                    "proofs: ics23 simple-merkle (TendermintSpec) two-level stores; IAVL spec and legacy "
                                    "iavl/multistore ops not exercised"])
+
+
+FLAVOURS = ["cosmos", "okex", "heimdall"]
